@@ -51,11 +51,21 @@ def mk_RTLIRTranslator( _StructuralTranslator, _BehavioralTranslator ):
           translate_component( child, components )
 
         name = s.structural.component_unique_name[m]
+        src = s.rtlir_tr_component(
+            get_component_nspace( s.behavioral, m ),
+            get_component_nspace( s.structural, m ),
+        )
         if name not in components:
-          components[name] = s.rtlir_tr_component(
-              get_component_nspace( s.behavioral, m ),
-              get_component_nspace( s.structural, m ),
-          )
+          components[name] = src
+        else:
+          # Components that share a module name share one definition. If
+          # their translation results differ the second component would
+          # silently get the hardware of the first one.
+          assert components[name] == src, \
+            f"component {m} is translated into module {name}, but a " \
+            f"component with a different translation result already uses " \
+            f"that module name! Please give the components different " \
+            f"class names or construct parameters."
         s._gen_hierarchy_metadata( 'decl_type_vector', 'decl_type_vector' )
         s._gen_hierarchy_metadata( 'decl_type_array', 'decl_type_array'   )
         s._gen_hierarchy_metadata( 'decl_type_struct', 'decl_type_struct' )
